@@ -271,6 +271,17 @@ def const_interval(conds, term, lo0=-float('inf')):
 def assert_redundant(ev, conds):
     """an overflow assertion that cannot fail under the path's conditions"""
     c = ev.get('cond')
+    if c and c[0] == 'op' and c[1] == 'Lt' and len(c) == 4 and c[3][0] == 'int' and c[3][1] >= 2 and c[2][0] == 'cast' and len(c[2]) == 4:
+        # a bounds check of a table indexed by a truth value (`[a, b][(x < y) as usize]`): the index is 0 or 1
+        x = c[2][2]
+        if x[0] == 'bool' or (x[0] == 'op' and x[1].split('.')[0] in ('Lt', 'Le', 'Gt', 'Ge', 'Eq', 'Ne')) or (x[0] == 'un' and x[1] == 'Not') \
+                or (x[0] == 'app' and str(x[1]).startswith(('core::cmp::PartialOrd::', 'core::cmp::PartialEq::'))):
+            return True
+    if c and c[0] == 'ovf' and c[1] == 'Mul' and len(c) == 4:
+        # (x / n) * n cannot exceed x
+        for u, v in ((c[2], c[3]), (c[3], c[2])):
+            if v[0] == 'int' and v[1] > 0 and u[0] == 'op' and u[1] == 'Div' and u[3][0] == 'int' and u[3][1] == v[1]:
+                return True
     if not c or c[0] != 'ovf':
         return False
     op, a, b = c[1], c[2], c[3]
